@@ -76,7 +76,11 @@ def random_call(rng, conf, state, kinds, opts):
       env = {'raise': True, 'stop': False}
     else:
       env = {'raise': False, 'stop': rng.random() < 0.5}
-    return {'rpc': k, 's': s, 't': tid(), 'env': env}
+    t = tid()
+    if opts.get('EsAlso') and not env['raise'] and rng.random() < 0.4:
+      env['self'] = rng.random() < 0.6
+      env['also'] = sorted({x for x in (tid(), tid()) if x != t} if rng.random() < 0.7 else set())
+    return {'rpc': k, 's': s, 't': t, 'env': env}
   if k == 'UpdateMetadata':
     t = tid() if rng.random() < 0.6 else 0
     t2 = tid() if (t and rng.random() < 0.3) else 0
